@@ -26,6 +26,8 @@ func Hostile() {
 	RouteTags = append(RouteTags, "null")
 	// ids whose derived callback ids collide: (root a, promise b:c) and (root a:b, promise c) both give __resume:a:b:c
 	ApiPromiseIds = append(ApiPromiseIds, "a", "c")
+	// look-alikes: "P1" equals "p1" up to case, "p_" matches "p0" and "p1" as a LIKE pattern — ids are compared exactly
+	ApiPromiseIds = append(ApiPromiseIds, "P1", "p_")
 	SubIds = append(SubIds, "c")
 }
 
